@@ -26,7 +26,8 @@ EXPLANATION = (
     'the array extents by constant evaluation); Search::iterativeDeepening must-calls KillerTable::clear before the first search '
     'call; WorkerThread::CommHandler::initSearch clears killers and honours clearHistory; doSearch hands the flag on and resets it.'
     ' The forward of the contempt to the table in Search::setWhiteContempt may depend on the thread number only.'
-    ' Added later; (4) clear() zeroes exactly the slots [0, tableSize): clear() itself - branch, chunk loop, worker closure, memset arguments - is interpreted for every table size the Hash option can produce (1..1024 MB quick, ..4096 MB thorough, and the halved fall-back sizes).')
+    ' Added later; (4) clear() zeroes exactly the slots [0, tableSize): clear() itself - branch, chunk loop, worker closure, memset arguments - is interpreted for every table size the Hash option can produce (1..1024 MB quick, ..4096 MB thorough, and the halved fall-back sizes).'
+    ' Added later; History::init zeroes unconditionally.')
 UNDECIDED = ('equality of node counts as such; influence of state outside these classes (static-storage writers reachable from '
              'the search are listed under coverage.static_storage_writers for review, not judged); hash-key collisions in the '
              'evaluation cache.')
@@ -276,10 +277,23 @@ def c2_rest(fb, rep):
         members = [f['n'] for f in (ent or {}).get('fields', [])]
         rep.floor(clause, 'members of History::HTEntry', len(members), 2)
         written = set()
+        conditional = []
+        from .. import regions as G_
         for b, i, e in hi.events():
             if e.get('k') == 'asg' and e.get('op') == '=' and isinstance(e.get('l'), dict) and e['l'].get('k') == 'mem' and \
                     isinstance(e.get('r'), dict) and e['r'].get('cv') == 0:
                 written.add(e['l'].get('f', '').split('::')[-1])
+                # a reset that depends on the old contents is not a reset: the only conditions allowed around the write are the loops' own
+                gs = [c for c, side in G_.guard_trees(hi, set(hi.blocks), b)
+                      if not any(n.get('k') == 'var' and str(n.get('n', '')).startswith('__') for n in walk(c))]
+                loopvars = {v['id'] for _, _, e2 in hi.events() if e2.get('k') == 'decl' for v in e2.get('vars', [])
+                            if any(hi.blocks[bb].get('term', {}) and (hi.blocks[bb]['term'].get('c') in ('ForStmt',)) and
+                                   any(n.get('k') == 'var' and n.get('id') == v['id'] for n in walk(hi.blocks[bb]['term'].get('cond') or {})) for bb in hi.blocks)}
+                extra = [c for c in gs if not any(n.get('k') == 'var' and n.get('id') in loopvars for n in walk(c))]
+                if extra:
+                    conditional.append((e['l'].get('f', '').split('::')[-1], [show(c, 50) for c in extra]))
+        rep.ob(clause, 'K13 reset completeness', 'History::init zeroes the cells unconditionally (whatever they held)', not conditional, hi.where,
+               'writes under a condition on the old contents: %s' % conditional, hi.sname)
         rep.ob(clause, 'K13 reset completeness', 'History::init zeroes every member of a cell', set(members) <= written, hi.where,
                'members %s, zeroed %s' % (members, sorted(written)), hi.sname)
         htf = next((f for f in hrec['fields'] if f['n'] == 'ht'), None)
